@@ -9,16 +9,25 @@ import (
 // Value is a symbolic Go value.
 type Value interface{}
 
-// Scalar: bool, integers, pointers (BV64 address), error, string, opaque bytes,
-// interface, symbolic function id, map/chan references.
+// Scalar: bool, integers, error, string, opaque bytes, interface, symbolic
+// function id, map/chan references.
 type Scalar struct {
-	T    Term
-	Prov string // for pointers obtained through unsafe: the memory the address indexes
+	T Term
 }
 
-// SliceV is a slice header; the contents live in the element memories.
+// PtrV is a pointer: a region identifier and an element offset inside it.
+// Region 0 is nil. Prov, when set, names the memory the pointer really points
+// into when that differs from the memory of its static element type (pointer to
+// a field embedded in a larger heap object, or a byte pointer cast by unsafe).
+type PtrV struct {
+	Rgn, Off Term
+	Prov     string
+}
+
+// SliceV is a slice header; the contents live in region Rgn of the element
+// memories at offsets Off .. Off+Cap-1.
 type SliceV struct {
-	Ptr, Len, Cap Term
+	Rgn, Off, Len, Cap Term
 }
 
 // StructV is a struct value (fields in declaration order).
@@ -26,10 +35,10 @@ type StructV struct {
 	F []Value
 }
 
-// ArrayRef is an array; its N elements live in the element memories at Base..Base+N-1.
+// ArrayRef is an array; its N elements live in region Rgn at Off .. Off+N-1.
 type ArrayRef struct {
-	Base Term
-	N    int64
+	Rgn, Off Term
+	N        int64
 }
 
 type TupleV struct {
@@ -94,6 +103,16 @@ func isByteSlice(t types.Type) bool {
 	return false
 }
 
+func isPointerLike(t types.Type) bool {
+	switch u := t.Underlying().(type) {
+	case *types.Pointer:
+		return true
+	case *types.Basic:
+		return u.Kind() == types.UnsafePointer
+	}
+	return false
+}
+
 func (x *Exec) scalarSort(t types.Type) (Sort, bool) {
 	switch u := t.Underlying().(type) {
 	case *types.Basic:
@@ -104,14 +123,12 @@ func (x *Exec) scalarSort(t types.Type) (Sort, bool) {
 			return BV(int(x.sizes.Sizeof(u)) * 8), true
 		case u.Info()&types.IsString != 0:
 			return SStr, true
-		case u.Kind() == types.UnsafePointer:
-			return SBV64, true
 		case u.Kind() == types.UntypedNil:
 			return SBV64, true
 		case u.Info()&types.IsFloat != 0:
 			return Sort("Float"), true
 		}
-	case *types.Pointer, *types.Map, *types.Chan:
+	case *types.Map, *types.Chan:
 		return SBV64, true
 	case *types.Interface:
 		if isErrorType(t) {
@@ -140,9 +157,14 @@ func (x *Exec) flatten(t types.Type, prefix string, out *[]leaf) {
 		*out = append(*out, leaf{prefix, s, t})
 		return
 	}
+	if isPointerLike(t) {
+		*out = append(*out, leaf{prefix + ".rgn", SBV64, nil}, leaf{prefix + ".off", SBV64, nil})
+		return
+	}
 	switch u := t.Underlying().(type) {
 	case *types.Slice:
-		*out = append(*out, leaf{prefix + ".ptr", SBV64, nil}, leaf{prefix + ".len", SBV64, nil}, leaf{prefix + ".cap", SBV64, nil})
+		*out = append(*out, leaf{prefix + ".rgn", SBV64, nil}, leaf{prefix + ".off", SBV64, nil},
+			leaf{prefix + ".len", SBV64, nil}, leaf{prefix + ".cap", SBV64, nil})
 	case *types.Struct:
 		for i := 0; i < u.NumFields(); i++ {
 			x.flatten(u.Field(i).Type(), prefix+"."+u.Field(i).Name(), out)
@@ -178,10 +200,14 @@ func (x *Exec) build(t types.Type, prefix string, leafFn func(l leaf) Term, arrF
 	if s, ok := x.scalarSort(t); ok {
 		return &Scalar{T: leafFn(leaf{prefix, s, t})}
 	}
+	if isPointerLike(t) {
+		return &PtrV{Rgn: leafFn(leaf{prefix + ".rgn", SBV64, nil}), Off: leafFn(leaf{prefix + ".off", SBV64, nil})}
+	}
 	switch u := t.Underlying().(type) {
 	case *types.Slice:
 		return &SliceV{
-			Ptr: leafFn(leaf{prefix + ".ptr", SBV64, nil}),
+			Rgn: leafFn(leaf{prefix + ".rgn", SBV64, nil}),
+			Off: leafFn(leaf{prefix + ".off", SBV64, nil}),
 			Len: leafFn(leaf{prefix + ".len", SBV64, nil}),
 			Cap: leafFn(leaf{prefix + ".cap", SBV64, nil}),
 		}
@@ -218,13 +244,29 @@ func (x *Exec) walk(t types.Type, v Value, prefix string, f func(l leaf, t Term)
 		f(leaf{prefix, s, t}, sc.T)
 		return
 	}
+	if isPointerLike(t) {
+		p, ok := v.(*PtrV)
+		if !ok {
+			unsup("walk: expected pointer for %s, have %T", t, v)
+		}
+		if p.Prov != "" {
+			if pt, isP := t.Underlying().(*types.Pointer); !isP || memName(pt.Elem()) != p.Prov {
+				// the provenance is lost when a pointer is flattened (stored, merged, compared)
+				x.provLost = true
+			}
+		}
+		f(leaf{prefix + ".rgn", SBV64, nil}, p.Rgn)
+		f(leaf{prefix + ".off", SBV64, nil}, p.Off)
+		return
+	}
 	switch u := t.Underlying().(type) {
 	case *types.Slice:
 		sl, ok := v.(*SliceV)
 		if !ok {
 			unsup("walk: expected slice for %s, have %T", t, v)
 		}
-		f(leaf{prefix + ".ptr", SBV64, nil}, sl.Ptr)
+		f(leaf{prefix + ".rgn", SBV64, nil}, sl.Rgn)
+		f(leaf{prefix + ".off", SBV64, nil}, sl.Off)
 		f(leaf{prefix + ".len", SBV64, nil}, sl.Len)
 		f(leaf{prefix + ".cap", SBV64, nil}, sl.Cap)
 	case *types.Struct:
@@ -298,8 +340,7 @@ func zeroTerm(c *Ctx, s Sort) Term {
 	panic("zeroTerm: " + string(s))
 }
 
-// fresh symbolic value of a type with the standing well-formedness assumptions
-// (slice 0 <= len <= cap <= 2^48, nil slice has zero length).
+// fresh symbolic value of a type.
 func (x *Exec) fresh(s *State, t types.Type, hint string) Value {
 	return x.build(t, "", func(l leaf) Term {
 		return x.ctx.Fresh(hint+l.path, l.sort)
@@ -310,6 +351,12 @@ func (x *Exec) fresh(s *State, t types.Type, hint string) Value {
 
 const maxObj = uint64(1) << 48
 
+// firstAlloc: region identifiers at or above this value are allocations made
+// during the verified function; everything that existed before is below it.
+const firstAlloc = uint64(1) << 60
+
+// assumeWF: standing well-formedness facts about slice headers, pointers and
+// strings (0 <= len <= cap <= 2^48, offsets below 2^48, nil has no capacity).
 func (x *Exec) assumeWF(s *State, t types.Type, v Value) {
 	switch u := t.Underlying().(type) {
 	case *types.Slice:
@@ -317,8 +364,13 @@ func (x *Exec) assumeWF(s *State, t types.Type, v Value) {
 			s.assume(Sle(I64(0), sl.Len))
 			s.assume(Sle(sl.Len, sl.Cap))
 			s.assume(Ule(sl.Cap, BVLit(maxObj, 64)))
-			s.assume(Ule(sl.Ptr, BVLit(maxObj, 64)))
-			s.assume(Implies(Eq(sl.Ptr, I64(0)), Eq(sl.Cap, I64(0))))
+			s.assume(Ule(sl.Off, BVLit(maxObj, 64)))
+			s.assume(Implies(Eq(sl.Rgn, I64(0)), And(Eq(sl.Cap, I64(0)), Eq(sl.Off, I64(0)))))
+		}
+	case *types.Pointer:
+		if p, ok := v.(*PtrV); ok {
+			s.assume(Ule(p.Off, BVLit(maxObj, 64)))
+			s.assume(Implies(Eq(p.Rgn, I64(0)), Eq(p.Off, I64(0))))
 		}
 	case *types.Struct:
 		if sv, ok := v.(*StructV); ok {
@@ -345,6 +397,27 @@ func (x *Exec) assumeWF(s *State, t types.Type, v Value) {
 	}
 }
 
+// assumePreexisting: every region reachable from a parameter existed before the
+// call, so it differs from every region allocated during it.
+func (x *Exec) assumePreexisting(s *State, t types.Type, v Value) {
+	switch u := t.Underlying().(type) {
+	case *types.Slice:
+		if sl, ok := v.(*SliceV); ok {
+			s.assume(Ult(sl.Rgn, BVLit(firstAlloc, 64)))
+		}
+	case *types.Pointer:
+		if p, ok := v.(*PtrV); ok {
+			s.assume(Ult(p.Rgn, BVLit(firstAlloc, 64)))
+		}
+	case *types.Struct:
+		if sv, ok := v.(*StructV); ok {
+			for i := 0; i < u.NumFields(); i++ {
+				x.assumePreexisting(s, u.Field(i).Type(), sv.F[i])
+			}
+		}
+	}
+}
+
 func (x *Exec) strlen(t Term) Term   { return x.ctx.UF("strlen", SBV64, t) }
 func (x *Exec) bytesLen(t Term) Term { return x.ctx.UF("bytes$len", SBV64, t) }
 func (x *Exec) bytesIsNil(t Term) Term {
@@ -352,23 +425,22 @@ func (x *Exec) bytesIsNil(t Term) Term {
 }
 
 // ---------------------------------------------------------------------------
-// memory
+// memory: one two-level array per (type, leaf path): region -> offset -> value
 
 type region struct {
-	mem  string // element memory prefix
-	base Term
-	size Term // in elements
-	tag  string
+	mem string // element memory prefix
+	rgn Term
+	tag string // param:<name> | emb:<path> | local | alloc
 }
 
-func (x *Exec) memSort(name string, leafSort Sort) Sort { return ArrSort(leafSort) }
+func outerSort(leafSort Sort) Sort { return ArrSort(ArrSort(leafSort)) }
 
-// mem returns the current array term of a memory (creating the initial one).
+// mem returns the current (outer) array term of a memory, creating the initial one.
 func (x *Exec) mem(s *State, name string, leafSort Sort) Term {
 	if t, ok := s.mem[name]; ok {
 		return t
 	}
-	t := x.ctx.Const(lazyMemName(name, s.memEpoch), ArrSort(leafSort))
+	t := x.ctx.Const(lazyMemName(name, s.memEpoch), outerSort(leafSort))
 	s.mem[name] = t
 	x.memSorts[name] = leafSort
 	return t
@@ -378,12 +450,32 @@ func (x *Exec) setMem(s *State, name string, t Term) {
 	s.mem[name] = x.ctx.Share(t)
 }
 
-// load reads a value of type t stored at element address addr of memory prefix.
-func (x *Exec) load(s *State, prefix string, t types.Type, addr Term) Value {
+// inner is the offset->value array of a region.
+func (x *Exec) inner(s *State, name string, leafSort Sort, rgn Term) Term {
+	return Select(x.mem(s, name, leafSort), rgn)
+}
+
+func (x *Exec) rd(s *State, name string, leafSort Sort, rgn, off Term) Term {
+	return Select(x.inner(s, name, leafSort, rgn), off)
+}
+
+func (x *Exec) wr(s *State, name string, leafSort Sort, rgn, off, v Term) {
+	m := x.mem(s, name, leafSort)
+	x.noteWrite(s, name, rgn, off)
+	x.setMem(s, name, Store(m, rgn, Store(Select(m, rgn), off, v)))
+}
+
+func (x *Exec) setInner(s *State, name string, leafSort Sort, rgn Term, arr Term) {
+	m := x.mem(s, name, leafSort)
+	x.setMem(s, name, Store(m, rgn, arr))
+}
+
+// load reads a value of type t stored at (rgn, off) of memory prefix.
+func (x *Exec) load(s *State, prefix string, t types.Type, rgn, off Term) Value {
 	v := x.build(t, "", func(l leaf) Term {
-		return Select(x.mem(s, prefix+l.path, l.sort), addr)
+		return x.rd(s, prefix+l.path, l.sort, rgn, off)
 	}, func(path string, at *types.Array) Value {
-		return &ArrayRef{Base: x.embBase(s, prefix+path, at, addr), N: at.Len()}
+		return &ArrayRef{Rgn: x.embRgn(s, prefix+path, at, rgn, off), Off: I64(0), N: at.Len()}
 	})
 	// slice headers (and strings) stored in memory are well formed: a type invariant of Go
 	x.loadWF(s, t, v)
@@ -406,6 +498,14 @@ func (x *Exec) loadWF(s *State, t types.Type, v Value) {
 				x.assumeWF(s, t, v)
 			}
 		}
+	case *types.Pointer:
+		if p, ok := v.(*PtrV); ok {
+			key := "wf:" + p.Off.S
+			if !s.embSeen[key] {
+				s.embSeen[key] = true
+				x.assumeWF(s, t, v)
+			}
+		}
 	case *types.Struct:
 		if sv, ok := v.(*StructV); ok {
 			for i := 0; i < u.NumFields(); i++ {
@@ -415,124 +515,145 @@ func (x *Exec) loadWF(s *State, t types.Type, v Value) {
 	}
 }
 
-// store writes a value of type t at addr.
-func (x *Exec) store(s *State, prefix string, t types.Type, addr Term, v Value) {
+// store writes a value of type t at (rgn, off).
+func (x *Exec) store(s *State, prefix string, t types.Type, rgn, off Term, v Value) {
 	x.walk(t, v, "", func(l leaf, tm Term) {
-		name := prefix + l.path
-		x.noteWrite(s, name, addr)
-		x.setMem(s, name, Store(x.mem(s, name, l.sort), addr, tm))
+		x.wr(s, prefix+l.path, l.sort, rgn, off, tm)
 	}, func(path string, at *types.Array, a *ArrayRef) {
-		dst := x.embBase(s, prefix+path, at, addr)
-		x.copyArray(s, at, dst, a.Base)
+		dst := x.embRgn(s, prefix+path, at, rgn, off)
+		x.copyElems(s, at.Elem(), dst, I64(0), a.Rgn, a.Off, I64(at.Len()))
 	})
 }
 
-// embBase is the base address (in the element memory) of an array embedded in a
-// heap object at addr.
-func (x *Exec) embBase(s *State, path string, at *types.Array, addr Term) Term {
-	b := x.ctx.UF("emb$"+path, SBV64, addr)
+// embRgn is the region of an array embedded in the heap object at (rgn, off).
+func (x *Exec) embRgn(s *State, path string, at *types.Array, rgn, off Term) Term {
+	b := x.ctx.UF("emb$"+path, SBV64, rgn, off)
 	key := b.S
 	if !s.embSeen[key] {
 		s.embSeen[key] = true
-		r := region{mem: memName(at.Elem()), base: b, size: I64(at.Len()), tag: "emb:" + path}
-		x.addRegion(s, r, true)
+		x.addRegion(s, region{mem: memName(at.Elem()), rgn: b, tag: "emb:" + path})
 	}
 	return b
 }
 
-func (x *Exec) addRegion(s *State, r region, disjoint bool) {
-	s.assume(Ule(r.base, BVLit(maxObj, 64)))
-	s.assume(Ne(r.base, I64(0)))
-	if disjoint {
-		for _, o := range s.regions {
-			if o.mem != r.mem {
-				continue
-			}
-			if strings.HasPrefix(o.tag, "emb:") && o.tag == r.tag {
-				// same field of possibly the same object: handled by congruence
-				continue
-			}
-			s.assume(Or(Ule(Add64(r.base, r.size), o.base), Ule(Add64(o.base, o.size), r.base)))
+// addRegion records a region and assumes it differs from the regions known so far
+// (embedded arrays of the same field in possibly the same object excepted).
+func (x *Exec) addRegion(s *State, r region) {
+	s.assume(Ne(r.rgn, I64(0)))
+	if strings.HasPrefix(r.tag, "emb:") {
+		s.assume(Ult(r.rgn, BVLit(firstAlloc, 64)))
+	}
+	for _, o := range s.regions {
+		if r.rgn.IsC && o.rgn.IsC {
+			continue
 		}
+		if strings.HasPrefix(o.tag, "emb:") && o.tag == r.tag {
+			continue // same field: equal iff same object (function congruence); not assumed distinct
+		}
+		if !strings.HasPrefix(r.tag, "emb:") && !strings.HasPrefix(o.tag, "emb:") && !r.rgn.IsC && !o.rgn.IsC {
+			continue // two parameters: handled by the non-aliasing assumption of verify.go
+		}
+		if r.rgn.IsC != o.rgn.IsC && !strings.HasPrefix(r.tag, "emb:") && !strings.HasPrefix(o.tag, "emb:") {
+			continue // allocation vs. parameter: separated by the firstAlloc bound
+		}
+		if (r.rgn.IsC && strings.HasPrefix(o.tag, "emb:")) || (o.rgn.IsC && strings.HasPrefix(r.tag, "emb:")) {
+			continue // allocation vs. embedded array: separated by the firstAlloc bound
+		}
+		s.assume(Ne(r.rgn, o.rgn))
 	}
 	s.regions = append(s.regions, r)
 }
 
+// newRegion allocates a fresh region: a literal identifier, distinct from every
+// other allocation and (by the firstAlloc bound) from everything pre-existing.
+func (x *Exec) newRegion(s *State, mem, tag string) Term {
+	x.allocs++
+	r := BVLit(firstAlloc+uint64(x.allocs), 64)
+	s.regions = append(s.regions, region{mem: mem, rgn: r, tag: tag})
+	return r
+}
+
 func (x *Exec) allocArray(s *State, at *types.Array, zero bool, hint string) *ArrayRef {
-	base := x.ctx.Fresh("arr$"+hint, SBV64)
-	x.addRegion(s, region{mem: memName(at.Elem()), base: base, size: I64(at.Len()), tag: "local"}, true)
-	a := &ArrayRef{Base: base, N: at.Len()}
+	r := x.newRegion(s, memName(at.Elem()), "local")
+	a := &ArrayRef{Rgn: r, Off: I64(0), N: at.Len()}
 	if zero {
-		x.fillZero(s, at.Elem(), base, I64(at.Len()))
+		x.fillZero(s, at.Elem(), r, I64(0), I64(at.Len()))
 	}
 	return a
 }
 
-// fillZero sets elements [base, base+n) of type et to zero.
-func (x *Exec) fillZero(s *State, et types.Type, base Term, n Term) {
+func inRange(off, n Term, a string) string {
+	// off <= a < off+n, written as (a - off) <u n: equivalent because off+n never wraps
+	// (both are at most 2^48), and much cheaper for bit-blasting solvers.
+	if off.IsC && off.C == 0 {
+		return fmt.Sprintf("(bvult %s %s)", a, n.S)
+	}
+	return fmt.Sprintf("(bvult (bvsub %s %s) %s)", a, off.S, n.S)
+}
+
+// fillZero sets elements [off, off+n) of region rgn (element type et) to zero.
+func (x *Exec) fillZero(s *State, et types.Type, rgn, off, n Term) {
 	if n.IsC && n.C <= 16 {
 		for i := uint64(0); i < n.C; i++ {
-			x.store(s, memName(et), et, Add64(base, I64(int64(i))), x.zero(s, et))
+			x.store(s, memName(et), et, rgn, Add64(off, I64(int64(i))), x.zero(s, et))
 		}
 		return
-	}
-	// bulk: new memory equals old outside the range and zero inside
-	for _, l := range x.leaves(et) {
-		name := memName(et) + l.path
-		old := x.mem(s, name, l.sort)
-		nw := x.ctx.Fresh("mem$"+name, ArrSort(l.sort))
-		a := "a?z"
-		in := fmt.Sprintf("(and (bvule %s %s) (bvult %s (bvadd %s %s)))", base.S, a, a, base.S, n.S)
-		s.assume(Term{S: fmt.Sprintf("(forall ((%s (_ BitVec 64))) (= (select %s %s) (ite %s %s (select %s %s))))", a, nw.S, a, in, zeroTerm(x.ctx, l.sort).S, old.S, a), Sort: SBool})
-		s.mem[name] = nw
-		x.noteWriteRange(s, name, base, n)
 	}
 	if _, ok := et.Underlying().(*types.Array); ok {
 		unsup("zeroing arrays of arrays")
 	}
+	for _, l := range x.leaves(et) {
+		name := memName(et) + l.path
+		old := x.inner(s, name, l.sort, rgn)
+		nw := x.ctx.Fresh("in$"+name, ArrSort(l.sort))
+		a := x.boundName("a")
+		s.assume(Term{S: fmt.Sprintf("(forall ((%s (_ BitVec 64))) (= (select %s %s) (ite %s %s (select %s %s))))", a, nw.S, a, inRange(off, n, a), zeroTerm(x.ctx, l.sort).S, old.S, a), Sort: SBool})
+		x.noteWriteRange(s, name, rgn, off, n)
+		x.setInner(s, name, l.sort, rgn, nw)
+	}
 }
 
-func (x *Exec) copyArray(s *State, at *types.Array, dst, src Term) {
-	x.copyElems(s, at.Elem(), dst, src, I64(at.Len()))
-}
-
-// copyElems models copy/memmove of n elements of type et from src to dst.
-func (x *Exec) copyElems(s *State, et types.Type, dst, src Term, n Term) {
+// copyElems models copy/memmove of n elements of type et.
+func (x *Exec) copyElems(s *State, et types.Type, dstR, dstO, srcR, srcO, n Term) {
 	if n.IsC && n.C <= 16 {
 		vals := make([]Value, n.C)
 		for i := range vals {
-			vals[i] = x.load(s, memName(et), et, Add64(src, I64(int64(i))))
+			vals[i] = x.load(s, memName(et), et, srcR, Add64(srcO, I64(int64(i))))
 		}
 		for i := range vals {
-			x.store(s, memName(et), et, Add64(dst, I64(int64(i))), vals[i])
+			x.store(s, memName(et), et, dstR, Add64(dstO, I64(int64(i))), vals[i])
 		}
 		return
 	}
 	for _, l := range x.leaves(et) {
 		name := memName(et) + l.path
-		old := x.mem(s, name, l.sort)
-		nw := x.ctx.Fresh("mem$"+name, ArrSort(l.sort))
-		a := "a?c"
-		in := fmt.Sprintf("(and (bvule %s %s) (bvult %s (bvadd %s %s)))", dst.S, a, a, dst.S, n.S)
-		from := fmt.Sprintf("(select %s (bvadd %s (bvsub %s %s)))", old.S, src.S, a, dst.S)
-		s.assume(Term{S: fmt.Sprintf("(forall ((%s (_ BitVec 64))) (= (select %s %s) (ite %s %s (select %s %s))))", a, nw.S, a, in, from, old.S, a), Sort: SBool})
-		s.mem[name] = nw
-		x.noteWriteRange(s, name, dst, n)
+		oldD := x.ctx.Share(x.inner(s, name, l.sort, dstR))
+		oldS := x.ctx.Share(x.inner(s, name, l.sort, srcR))
+		nw := x.ctx.Fresh("in$"+name, ArrSort(l.sort))
+		a := x.boundName("a")
+		from := fmt.Sprintf("(select %s (bvadd %s (bvsub %s %s)))", oldS.S, srcO.S, a, dstO.S)
+		s.assume(Term{S: fmt.Sprintf("(forall ((%s (_ BitVec 64))) (= (select %s %s) (ite %s %s (select %s %s))))", a, nw.S, a, inRange(dstO, n, a), from, oldD.S, a), Sort: SBool})
+		x.noteWriteRange(s, name, dstR, dstO, n)
+		x.setInner(s, name, l.sort, dstR, nw)
 	}
 }
 
-// havocRange forgets elements [base, base+n) of type et.
-func (x *Exec) havocRange(s *State, et types.Type, base Term, n Term) {
+// havocRange forgets elements [off, off+n) of region rgn.
+func (x *Exec) havocRange(s *State, et types.Type, rgn, off, n Term) {
 	for _, l := range x.leaves(et) {
 		name := memName(et) + l.path
-		old := x.mem(s, name, l.sort)
-		nw := x.ctx.Fresh("mem$"+name, ArrSort(l.sort))
-		a := "a?h"
-		in := fmt.Sprintf("(and (bvule %s %s) (bvult %s (bvadd %s %s)))", base.S, a, a, base.S, n.S)
-		s.assume(Term{S: fmt.Sprintf("(forall ((%s (_ BitVec 64))) (=> (not %s) (= (select %s %s) (select %s %s))))", a, in, nw.S, a, old.S, a), Sort: SBool})
-		s.mem[name] = nw
-		x.noteWriteRange(s, name, base, n)
+		old := x.ctx.Share(x.inner(s, name, l.sort, rgn))
+		nw := x.ctx.Fresh("in$"+name, ArrSort(l.sort))
+		a := x.boundName("a")
+		s.assume(Term{S: fmt.Sprintf("(forall ((%s (_ BitVec 64))) (=> (not %s) (= (select %s %s) (select %s %s))))", a, inRange(off, n, a), nw.S, a, old.S, a), Sort: SBool})
+		x.noteWriteRange(s, name, rgn, off, n)
+		x.setInner(s, name, l.sort, rgn, nw)
 	}
+}
+
+func (x *Exec) boundName(hint string) string {
+	x.ctx.n++
+	return fmt.Sprintf("%s?%d", hint, x.ctx.n)
 }
 
 func lazyMemName(name string, epoch int) string {
@@ -546,7 +667,7 @@ func lazyMemName(name string, epoch int) string {
 func (x *Exec) havocAllMem(s *State, why string) {
 	for name := range s.mem {
 		sort := x.memSorts[name]
-		s.mem[name] = x.ctx.Fresh("mem$"+name, ArrSort(sort))
+		s.mem[name] = x.ctx.Fresh("mem$"+name, outerSort(sort))
 	}
 	s.memEpoch = x.newEpoch()
 	x.noteWriteAll(s, why)
@@ -559,29 +680,43 @@ func (x *Exec) mergeValue(c Term, a, b Value) Value {
 	if a == b {
 		return a
 	}
+	ite := func(p, q Term) Term { return x.ctx.Share(Ite(c, p, q)) }
 	switch av := a.(type) {
 	case *Scalar:
 		bv, ok := b.(*Scalar)
 		if !ok {
 			if fb, isF := b.(*FuncV); isF && av.T.Sort == SFn {
-				return &Scalar{T: x.ctx.Share(Ite(c, av.T, x.fnID(fb)))}
+				return &Scalar{T: ite(av.T, x.fnID(fb))}
 			}
 			unsup("merge: scalar vs %T", b)
 		}
 		if av.T.Sort != bv.T.Sort {
 			unsup("merge: sort mismatch %s vs %s", av.T.Sort, bv.T.Sort)
 		}
+		return &Scalar{T: ite(av.T, bv.T)}
+	case *PtrV:
+		bv, ok := b.(*PtrV)
+		if !ok {
+			unsup("merge: pointer vs %T", b)
+		}
 		p := av.Prov
 		if bv.Prov != p {
-			p = ""
+			// nil pointers carry no provenance
+			switch {
+			case av.Rgn.IsC && av.Rgn.C == 0:
+				p = bv.Prov
+			case bv.Rgn.IsC && bv.Rgn.C == 0:
+			default:
+				unsup("merge: pointers into different memories (%q, %q)", av.Prov, bv.Prov)
+			}
 		}
-		return &Scalar{T: x.ctx.Share(Ite(c, av.T, bv.T)), Prov: p}
+		return &PtrV{Rgn: ite(av.Rgn, bv.Rgn), Off: ite(av.Off, bv.Off), Prov: p}
 	case *SliceV:
 		bv, ok := b.(*SliceV)
 		if !ok {
 			unsup("merge: slice vs %T", b)
 		}
-		return &SliceV{Ptr: x.ctx.Share(Ite(c, av.Ptr, bv.Ptr)), Len: x.ctx.Share(Ite(c, av.Len, bv.Len)), Cap: x.ctx.Share(Ite(c, av.Cap, bv.Cap))}
+		return &SliceV{Rgn: ite(av.Rgn, bv.Rgn), Off: ite(av.Off, bv.Off), Len: ite(av.Len, bv.Len), Cap: ite(av.Cap, bv.Cap)}
 	case *StructV:
 		bv, ok := b.(*StructV)
 		if !ok || len(bv.F) != len(av.F) {
@@ -597,7 +732,7 @@ func (x *Exec) mergeValue(c Term, a, b Value) Value {
 		if !ok || bv.N != av.N {
 			unsup("merge: array vs %T", b)
 		}
-		return &ArrayRef{Base: x.ctx.Share(Ite(c, av.Base, bv.Base)), N: av.N}
+		return &ArrayRef{Rgn: ite(av.Rgn, bv.Rgn), Off: ite(av.Off, bv.Off), N: av.N}
 	case *TupleV:
 		bv, ok := b.(*TupleV)
 		if !ok || len(bv.V) != len(av.V) {
@@ -613,12 +748,17 @@ func (x *Exec) mergeValue(c Term, a, b Value) Value {
 			if av.Fn == bv.Fn && av.Lit == bv.Lit && av.Sym.S == bv.Sym.S && av.Recv == bv.Recv {
 				return av
 			}
-			return &FuncV{Sym: x.ctx.Share(Ite(c, x.fnID(av), x.fnID(bv))), Typ: av.Typ}
+			return &FuncV{Sym: ite(x.fnID(av), x.fnID(bv)), Typ: av.Typ}
 		}
 		if bs, ok := b.(*Scalar); ok && bs.T.Sort == SFn {
-			return &Scalar{T: x.ctx.Share(Ite(c, x.fnID(av), bs.T))}
+			return &Scalar{T: ite(x.fnID(av), bs.T)}
 		}
 		unsup("merge: func vs %T", b)
+	case *heapVar:
+		if bv, ok := b.(*heapVar); ok && bv.rgn.S == av.rgn.S {
+			return av
+		}
+		unsup("merge: distinct heap variables")
 	case nil:
 		return b
 	}
@@ -629,13 +769,13 @@ func (x *Exec) mergeValue(c Term, a, b Value) Value {
 func valueEq(x *Exec, t types.Type, a, b Value) Term {
 	var conj []Term
 	var ta, tb []Term
+	if _, ok := t.Underlying().(*types.Slice); ok && !(x.opaque && isByteSlice(t)) {
+		unsup("== on slices")
+	}
 	x.walk(t, a, "", func(l leaf, tm Term) { ta = append(ta, tm) }, func(path string, at *types.Array, ar *ArrayRef) {
 		unsup("equality on arrays")
 	})
 	x.walk(t, b, "", func(l leaf, tm Term) { tb = append(tb, tm) }, nil)
-	if _, ok := t.Underlying().(*types.Slice); ok && !(x.opaque && isByteSlice(t)) {
-		unsup("== on slices")
-	}
 	for i := range ta {
 		conj = append(conj, Eq(ta[i], tb[i]))
 	}
